@@ -173,6 +173,17 @@ def check(run):
             want = LABEL[wcag_ref.level(parse_color_to_rgb(out), b, large)].lower()
             if status != want:
                 run.violation("bulk status differs from the WCAG label of the returned colour", [list(a), list(b), large], got=status, expected=want, returned=out)
+            # the same two colours at both text sizes in one list, in both orders: each status is the label at ITS size
+            ha, hb = "#%02x%02x%02x" % a, "#%02x%02x%02x" % b
+            for lst, vr in (([(ha, hb, large), (ha, hb, not large)], False), ([(ha, hb, not large), (ha, hb), (ha, hb, True)], False),
+                            ([(ha, hb, large), (ha, hb)], True)):
+                for ent, (out2, st2) in zip(lst, make_readable_bulk(lst, very_readable=vr, mode=i % 3)):
+                    lg = ent[2] if len(ent) == 3 else False
+                    want2 = LABEL[wcag_ref.level(parse_color_to_rgb(out2), b, lg)].lower()
+                    run.count(("bulk-label", a, b, tuple(e[2] if len(e) == 3 else None for e in lst), lg, vr))
+                    if st2 != want2:
+                        run.violation("bulk status differs from the WCAG label of the returned colour at the entry's own text size",
+                                      {"entries": [list(e) for e in lst], "entry": list(ent), "very_readable": vr, "mode": i % 3}, got=st2, expected=want2, returned=out2)
     run.sample({"luminance": [119, 119, 119], "impl": ct.calculate_relative_luminance((119, 119, 119)), "reference": str(wcag_ref.luminance((119, 119, 119)))[:22]})
     run.sample({"ratio": [[119, 119, 119], [255, 255, 255]], "impl": ct.calculate_contrast_ratio((119, 119, 119), (255, 255, 255)), "reference": str(wcag_ref.ratio((119, 119, 119), (255, 255, 255)))[:22]})
     run.sample({"level": [4.5, False], "impl": ct.get_contrast_level(4.5, False)})
